@@ -9,6 +9,12 @@ import "github.com/zeromicro/go-zero/core/breaker"
 // injects cache-store outages; the breaker of the redis client is keyed by address for the whole
 // process and runs on real time, so over thousands of histories per process it would open and
 // turn outages of one history into failures of the next (a harness artefact, see NOTES.md).
-func VerifNewNopBreaker(addr string) *Redis {
-	return &Redis{Addr: addr, Type: NodeType, brk: breaker.NopBreaker()}
+// opts: the package's public options (e.g. WithHook: a go-redis hook, which runs in the calling
+// goroutine around every command).
+func VerifNewNopBreaker(addr string, opts ...Option) *Redis {
+	r := &Redis{Addr: addr, Type: NodeType, brk: breaker.NopBreaker()}
+	for _, o := range opts {
+		o(r)
+	}
+	return r
 }
